@@ -1318,13 +1318,16 @@ class HierarchicalMachine(Machine):
             _state_tree = self.build_state_tree(listify(getattr(model, self.model_attribute)),
                                                 self.state_cls.separator)
         res = {}
+        offered = False
         for key, value in _state_tree.items():
             if value:
                 with self(key):
                     tmp = self._trigger_event_nested(event_data, trigger, value)
                     if tmp is not None:
                         res[key] = tmp
-            if res.get(key, False) is False and trigger in self.events:
+            # trigger_nested visits every active state of this scope: offer the event to the scope only once
+            if res.get(key, False) is False and trigger in self.events and not offered:
+                offered = True
                 event_data.event = self.events[trigger]
                 tmp = event_data.event.trigger_nested(event_data)
                 if tmp is not None:
